@@ -14,7 +14,7 @@
    The theorems quantify over ALL histories: any order, valid and invalid sizes, repeated values, parts of wider values. *)
 From Coq Require Import ZArith List Bool.
 From Verif Require Import ConstPool.ConstPoolModel ConstPool.ConstPoolSpec ConstPool.ConstPoolInv ConstPool.ConstPoolProofs
-  ConstPool.ConstPoolJudge ConstPool.ConstPoolJudgeProofs ConstPool.ConstPoolTreeBridge ConstPool.ConstPoolPartition ConstPool.ConstPoolSharing ConstPool.ConstPoolRBTree ConstPool.ConstPoolFrame.
+  ConstPool.ConstPoolJudge ConstPool.ConstPoolJudgeProofs ConstPool.ConstPoolTreeBridge ConstPool.ConstPoolPartition ConstPool.ConstPoolSharing ConstPool.ConstPoolRBTree ConstPool.ConstPoolFrame ConstPool.ConstPoolGrowth.
 From Verif Require Containers.TreeModel Containers.TreeGeneral Containers.TreeRotate.
 Import ListNotations.
 Local Open Scope Z_scope.
@@ -465,3 +465,23 @@ Theorem C19_history_frame_example :
   cp_fill (final cmds) = [1; 0; 0; 0; 2; 2; 2; 2] /\ cp_fill (final (cmds ++ more)) = [1; 3; 2; 2; 2; 2; 2; 2].
 Proof. exact history_frame_example. Qed.
 Print Assumptions C19_history_frame_example.
+
+(* "the reported size covers everything" from above (round 8): size() of ANY history (no wf / guard hypothesis: valid and invalid
+   sizes, repeats, parts) is at most the sum of 2*s - 1 over its valid-size calls (s bytes for the constant, at most s - 1 of
+   alignment gap in front of it); budget is ConstPoolGrowth.budget *)
+Theorem C19_size_growth_bound : forall cmds, 0 <= psize (final cmds) <= budget cmds.
+Proof. exact growth_thm. Qed.
+Print Assumptions C19_size_growth_bound.
+
+(* one more add grows size() by at most 2*s - 1; a call with an invalid size is refused and leaves the whole pool as it was *)
+Theorem C19_size_growth_step : forall cmds d s,
+  let p := final cmds in let p' := final (cmds ++ [(d, s)]) in
+  psize p <= psize p' <= psize p + (if valid_sizeb s then 2 * s - 1 else 0) /\
+  (valid_sizeb s = false -> p' = p /\ results (cmds ++ [(d, s)]) = results cmds ++ [InvalidArgument]).
+Proof. exact growth_step_thm. Qed.
+Print Assumptions C19_size_growth_step.
+
+(* the bound is reached: one byte, then a 64-byte constant -> 1 + 63 bytes of gap + 64 = 128 = (2*1-1) + (2*64-1) *)
+Theorem C19_size_growth_bound_tight : psize (final tight_cmds) = budget tight_cmds /\ budget tight_cmds = 128.
+Proof. exact tight_example. Qed.
+Print Assumptions C19_size_growth_bound_tight.
